@@ -103,7 +103,7 @@ class Std(Scenario):
                 if left('rebuild') > 0:
                     out.append(('rebuild', a))
                 if left('reconn2') > 0:        # connect() again on the protocol whose connection was lost (D17)
-                    out.append(('connect', a) + tuple(self.reconnects[0]))
+                    out.append(('reconn2', a) + tuple(self.reconnects[0]))
                 continue
             if c.pending_loss is not None:
                 out.append(('lossdeliver', a))
@@ -118,7 +118,7 @@ class Std(Scenario):
                         out.append(('connect', a) + tuple(m))
             elif ph == 'refused' and can_api:
                 if left('reconn2') > 0:
-                    out.append(('connect', a) + tuple(self.reconnects[0]))
+                    out.append(('reconn2', a) + tuple(self.reconnects[0]))
             elif ph == 'connecting':
                 if c.open:
                     if left('connack') > 0:
